@@ -525,5 +525,55 @@ theorem frame_shift_partial (F : FloatOps) :
           have hs2 := (sh_noteTrace op s1 t1 hs1 u s2 u' t2 e3 e4).2
           exact sh_dispatch F op hcov ha hL s2 t2 ⟨hs2, fun hl => OpLt_noteTrace op s1 s2 u (hloc hl) e3, fun hm => OpEven_noteTrace op s1 s2 u (hev hm) e3⟩ r s' r' t' h1 h2
 
+/-! ### several instructions -/
+
+/-- `n` iterations of the loop body (no abort check): `none` = a Go panic / outside the model -/
+def runSteps (F : FloatOps) : Nat → State → Option (Ctl × State)
+  | 0, s => some (.next, s)
+  | n+1, s =>
+    match exec (step F) s with
+    | (.ok .next, s') => runSteps F n s'
+    | (.ok .ret, s') => some (.ret, s')
+    | (.error _, _) => none
+
+/-- every instruction the child executes during its next `n` steps is a covered one -/
+def CoveredRun (F : FloatOps) (L : Nat) : Nat → State → Prop
+  | 0, _ => True
+  | n+1, s => StepOk L s ∧ ∀ s', exec (step F) s = (.ok .next, s') → CoveredRun F L n s'
+
+/-- **steps_shift_partial.**  `frame_shift_partial` iterated: after any number of covered instructions,
+    if neither VM panicked or left the model, both are still running in `ShB`-related states, or the
+    child has stopped with `vm.err` set. -/
+theorem steps_shift_partial (F : FloatOps) (n : Nat) : ∀ s t, ShB bp k L s t → CoveredRun F L n s →
+    ∀ r s' r' t', runSteps F n s = some (r, s') → runSteps F n t = some (r', t') → PostC bp k L r r' s' t' := by
+  induction n with
+  | zero =>
+    intro s t h _ r s' r' t' h1 h2
+    simp only [runSteps, Option.some.injEq, Prod.mk.injEq] at h1 h2
+    obtain ⟨rfl, rfl⟩ := h1
+    obtain ⟨rfl, rfl⟩ := h2
+    exact Or.inl ⟨rfl, rfl, h⟩
+  | succ n ih =>
+    intro s t h hc r s' r' t' h1 h2
+    obtain ⟨hok, hnext⟩ := hc
+    simp only [runSteps] at h1 h2
+    rcases e1 : exec (step F) s with ⟨r1, s1⟩
+    rcases e2 : exec (step F) t with ⟨r2, t1⟩
+    rw [e1] at h1
+    rw [e2] at h2
+    cases r1 with
+    | error e => simp at h1
+    | ok c1 =>
+      cases r2 with
+      | error e => simp at h2
+      | ok c2 =>
+        have hp := frame_shift_partial F s t ⟨h, hok⟩ c1 s1 c2 t1 e1 e2
+        rcases hp with ⟨rfl, rfl, hsh⟩ | ⟨rfl, herr⟩
+        · simp only at h1 h2
+          exact ih s1 t1 hsh (hnext s1 e1) r s' r' t' h1 h2
+        · simp only [Option.some.injEq, Prod.mk.injEq] at h1
+          obtain ⟨rfl, rfl⟩ := h1
+          exact Or.inr ⟨rfl, herr⟩
+
 end
 end UgoVerif.Proofs.Shift
